@@ -1,5 +1,5 @@
 SPECIFICATION RSpec
-CONSTANTS PairSrc = "all" CtxU = "few" MaxFlow = 0 KeyU = "six"
+CONSTANTS PairSrc = "all" CtxU = "few" MaxFlow = 0 KeyU = "five"
 INVARIANT KeyCharStep
 INVARIANT ProjPartStep
 INVARIANT OwnerStep
